@@ -354,7 +354,7 @@ func canon(w *World) string {
 var controllerActors = map[string]bool{sim.ActorEDS: true, sim.ActorERS: true, sim.ActorPodTemplate: true, sim.ActorSetting: true}
 
 // safety monitors of C11: one pod per node, availability budget, canary confinement, promotion rule, ownership
-var c11Monitors = mon.Of("create-eligible", "create-once", "unknown-untouched", "budget", "canary-confinement", "canary-list-growth", "promotion-rule", "ownership", "no-panic")
+var c11Monitors = mon.Of("create-eligible", "create-once", "unknown-untouched", "budget", "canary-confinement", "canary-list-growth", "promotion-rule", "ownership", "rs-gc", "no-panic")
 
 type scnResult struct {
 	Calls        int
